@@ -174,6 +174,13 @@ def oracle_kauri(case):
     fp = call(label, "fit_predict", E.build_kauri(s, Xf)[0].fit_predict, X, y)
     if not np.array_equal(fp, labels):
         raise Violation(f"{label}: fit_predict differs from labels_ of an identical fit")
+    # what predict returns belongs to the caller
+    keep = np.array(pred, copy=True)
+    if isinstance(pred, np.ndarray) and pred.flags.writeable:
+        pred[...] = -5
+    again = call(label, "predict (second call)", est.predict, X)
+    if not np.array_equal(again, keep) or not np.array_equal(est.labels_, keep):
+        raise Violation(f"{label}: after the caller wrote into the array returned by predict, the model predicts differently")
     return {"nontrivial": bool(len(np.unique(labels)) >= 2), "classes": ["Kauri:" + s["kernel"]["form"], "dtype:" + case["dtype"]],
             "note": {"labels": labels.tolist()[:12], "score": sc}}
 
